@@ -406,6 +406,15 @@ def digestChallenge (P : Prims) (cfg : DigestCfg) (now : Int) (stale : Bool) : S
     ++ cs! "\", algorithm=\"" ++ challengeAlgorithm ++ cs! "\", qop=\"" ++ challengeQop ++ ['"']
     ++ (if stale then cs! ", stale=\"true\"" else []) ++ charsetDecl cfg.acceptCharset
 
+/-- `www_authenticate(realm, key, algorithm=…, qop=…, stale=…, accept_charset=…)` with explicit algorithm and qop
+    (the public helper; `_respond_401` always calls it with the defaults) -/
+def wwwAuthenticate (P : Prims) (cfg : DigestCfg) (algorithm qop : Str) (now : Int) (stale : Bool) : Except Exc Str :=
+  if ¬ validQops.contains qop then .error .valueError
+  else if ¬ validAlgorithms.contains algorithm then .error .valueError
+  else .ok (cs! "Digest realm=\"" ++ cfg.realm ++ cs! "\", nonce=\"" ++ synthesizeNonce P cfg.realm cfg.key (showInt now)
+    ++ cs! "\", algorithm=\"" ++ algorithm ++ cs! "\", qop=\"" ++ qop ++ ['"']
+    ++ (if stale then cs! ", stale=\"true\"" else []) ++ charsetDecl cfg.acceptCharset)
+
 def respond401 (P : Prims) (cfg : DigestCfg) (now : Int) (stale : Bool) : Outcome :=
   .unauthorized (digestChallenge P cfg now stale)
 
